@@ -56,3 +56,80 @@ package analysis
 //@   loop 2: invariant forall r *spec.Response :: !fresh(r) ==> stepR(old(*r), *r)
 //@   loop 2: invariant forall m map[int]spec.Response :: !fresh(m) ==> dom(m) == old(dom(m)) && (forall c in dom(m) :: stepR(old(m[c]), m[c]))
 //@   loop 2: invariant forall p in seen :: pathFixed(s.Paths.Paths[p])
+
+// ---------------------------------------------------------------- mixin.go (C17, C18)
+
+//@ fun inOps(s []*spec.Operation, o *spec.Operation) bool = exists i in 0..len(s) :: s[i] == o
+//@ ofun isOpOf(p spec.PathItem, o *spec.Operation) bool = o != nil && (o == p.Get || o == p.Put || o == p.Post || o == p.Delete || o == p.Options || o == p.Head || o == p.Patch)
+
+//@ func pathItemOps(p)
+//@   modifies nothing
+//@   ensures forall i in 0..len(result) :: isOpOf(p, result[i])
+//@   ensures p.Get != nil ==> inOps(result, p.Get)
+//@   ensures p.Put != nil ==> inOps(result, p.Put)
+//@   ensures p.Post != nil ==> inOps(result, p.Post)
+//@   ensures p.Delete != nil ==> inOps(result, p.Delete)
+//@   ensures p.Options != nil ==> inOps(result, p.Options)
+//@   ensures p.Head != nil ==> inOps(result, p.Head)
+//@   ensures p.Patch != nil ==> inOps(result, p.Patch)
+//@   ensures len(result) <= 7
+//@   ensures distinctOps(p) ==> forall i in 0..len(result) :: forall j in 0..len(result) :: i != j ==> result[i] != result[j]
+
+//@ fun opHasID(o *spec.Operation, id string) bool = o != nil && o.ID == id
+//@ fun pathHasID(p spec.PathItem, id string) bool = opHasID(p.Get, id) || opHasID(p.Put, id) || opHasID(p.Post, id) || opHasID(p.Delete, id) || opHasID(p.Options, id) || opHasID(p.Head, id) || opHasID(p.Patch, id)
+//@ fun docHasID(s *spec.Swagger, id string) bool = s.Paths != nil && (exists p in dom(s.Paths.Paths) :: pathHasID(s.Paths.Paths[p], id))
+
+//@ func getOpIDs(s)
+//@   requires s != nil
+//@   modifies nothing
+//@   ensures result != nil && fresh(result)
+//@   ensures forall id string :: (id in dom(result)) <==> (id != "" && docHasID(s, id))
+//@   ensures forall id in dom(result) :: result[id]
+//@   loop 1: invariant rv != nil && fresh(rv)
+//@   loop 1: invariant forall id string :: (id in dom(rv)) <==> (id != "" && (exists p in seen :: pathHasID(s.Paths.Paths[p], id)))
+//@   loop 1: invariant forall id in dom(rv) :: rv[id]
+//@   loop 2: invariant rv != nil && fresh(rv)
+//@   loop 2: invariant forall id string :: (id in dom(rv)) <==> (id != "" && ((exists p in seen1 :: p != key1 && pathHasID(s.Paths.Paths[p], id)) || (exists j in 0..idx :: piops[j].ID == id)))
+//@   loop 2: invariant forall id in dom(rv) :: rv[id]
+
+//@ fun mixName(id string, i int) string = fmt.Sprintf("%v%v%v", id, "Mixin", i)
+//@ fun distinctOps(p spec.PathItem) bool = (p.Get == nil || (p.Get != p.Put && p.Get != p.Post && p.Get != p.Delete && p.Get != p.Options && p.Get != p.Head && p.Get != p.Patch)) && (p.Put == nil || (p.Put != p.Post && p.Put != p.Delete && p.Put != p.Options && p.Put != p.Head && p.Put != p.Patch)) && (p.Post == nil || (p.Post != p.Delete && p.Post != p.Options && p.Post != p.Head && p.Post != p.Patch)) && (p.Delete == nil || (p.Delete != p.Options && p.Delete != p.Head && p.Delete != p.Patch)) && (p.Options == nil || (p.Options != p.Head && p.Options != p.Patch)) && (p.Head == nil || p.Head != p.Patch)
+// treeOps: the operations of a document are distinct objects (true of every document produced by the JSON loader)
+//@ fun treeOps(s *spec.Swagger) bool = s.Paths != nil ==> (forall k in dom(s.Paths.Paths) :: distinctOps(s.Paths.Paths[k])) && (forall k1 in dom(s.Paths.Paths) :: forall k2 in dom(s.Paths.Paths) :: forall o *spec.Operation :: isOpOf(s.Paths.Paths[k1], o) && isOpOf(s.Paths.Paths[k2], o) ==> k1 == k2)
+//@ fun idStep(old0 string, new0 string, i int) bool = new0 == old0 || (old0 != "" && new0 == mixName(old0, i))
+
+//@ func mergePaths(primary, m, opIDs, mixIndex)
+//@   requires primary != nil && m != nil && opIDs != nil && primary.Paths != nil && primary.Paths.Paths != nil
+//@   requires treeOps(m)
+//@   requires m.Paths != nil ==> primary.Paths.Paths != m.Paths.Paths
+//@   modifies map primary.Paths.Paths, map opIDs, heap spec.Operation
+//@   ensures forall k string :: (k in dom(primary.Paths.Paths)) <==> (old(k in dom(primary.Paths.Paths)) || (m.Paths != nil && k in dom(m.Paths.Paths)))
+//@   ensures forall k in dom(primary.Paths.Paths) :: old(k in dom(primary.Paths.Paths)) ==> primary.Paths.Paths[k] == old(primary.Paths.Paths[k])
+//@   ensures m.Paths != nil ==> forall k in dom(m.Paths.Paths) :: !old(k in dom(primary.Paths.Paths)) ==> primary.Paths.Paths[k] == m.Paths.Paths[k]
+//@   ensures forall o *spec.Operation :: !fresh(o) ==> *o == old(*o) with {ID: o.ID} && idStep(old(o.ID), o.ID, mixIndex)
+//@   ensures forall o *spec.Operation :: !fresh(o) && o.ID != old(o.ID) ==> old(o.ID) in dom(opIDs) && o.ID in dom(opIDs)
+//@   ensures forall o *spec.Operation :: !fresh(o) && o.ID != old(o.ID) ==> m.Paths != nil && (exists k in dom(m.Paths.Paths) :: !old(k in dom(primary.Paths.Paths)) && isOpOf(m.Paths.Paths[k], o))
+//@   ensures forall id string :: old(id in dom(opIDs)) ==> id in dom(opIDs)
+//@   ensures forall id in dom(opIDs) :: opIDs[id] || old(id in dom(opIDs))
+//@   ensures m.Paths != nil ==> forall k in dom(m.Paths.Paths) :: !old(k in dom(primary.Paths.Paths)) ==> forall o *spec.Operation :: isOpOf(m.Paths.Paths[k], o) && o.ID != "" ==> o.ID in dom(opIDs)
+//@   loop 1: modifies map primary.Paths.Paths, map opIDs, heap spec.Operation
+//@   loop 1: invariant forall k string :: (k in dom(primary.Paths.Paths)) <==> (old(k in dom(primary.Paths.Paths)) || k in seen)
+//@   loop 1: invariant forall k in seen :: k in dom(m.Paths.Paths)
+//@   loop 1: invariant forall k in dom(primary.Paths.Paths) :: old(k in dom(primary.Paths.Paths)) ==> primary.Paths.Paths[k] == old(primary.Paths.Paths[k])
+//@   loop 1: invariant forall k in seen :: !old(k in dom(primary.Paths.Paths)) ==> primary.Paths.Paths[k] == m.Paths.Paths[k]
+//@   loop 1: invariant forall k in dom(m.Paths.Paths) :: m.Paths.Paths[k] == old(m.Paths.Paths[k])
+//@   loop 1: invariant forall o *spec.Operation :: !fresh(o) ==> *o == old(*o) with {ID: o.ID} && idStep(old(o.ID), o.ID, mixIndex)
+//@   loop 1: invariant forall o *spec.Operation :: !fresh(o) && o.ID != old(o.ID) ==> old(o.ID) in dom(opIDs) && o.ID in dom(opIDs)
+//@   loop 1: invariant forall o *spec.Operation :: !fresh(o) && o.ID != old(o.ID) ==> (exists k in seen :: !old(k in dom(primary.Paths.Paths)) && isOpOf(m.Paths.Paths[k], o))
+//@   loop 1: invariant forall id string :: old(id in dom(opIDs)) ==> id in dom(opIDs)
+//@   loop 1: invariant forall id in dom(opIDs) :: opIDs[id] || old(id in dom(opIDs))
+//@   loop 1: invariant forall k in seen :: !old(k in dom(primary.Paths.Paths)) ==> forall o *spec.Operation :: isOpOf(m.Paths.Paths[k], o) && o.ID != "" ==> o.ID in dom(opIDs)
+//@   loop 2: modifies map opIDs, heap spec.Operation
+//@   loop 2: invariant forall o *spec.Operation :: !fresh(o) ==> *o == old(*o) with {ID: o.ID} && idStep(old(o.ID), o.ID, mixIndex)
+//@   loop 2: invariant forall o *spec.Operation :: !fresh(o) && o.ID != old(o.ID) ==> old(o.ID) in dom(opIDs) && o.ID in dom(opIDs)
+//@   loop 2: invariant forall o *spec.Operation :: !fresh(o) && o.ID != old(o.ID) ==> (exists k in seen1 :: k != key1 && !old(k in dom(primary.Paths.Paths)) && isOpOf(m.Paths.Paths[k], o)) || (exists j in 0..idx :: piops[j] == o)
+//@   loop 2: invariant forall id string :: old(id in dom(opIDs)) ==> id in dom(opIDs)
+//@   loop 2: invariant forall id in dom(opIDs) :: opIDs[id] || old(id in dom(opIDs))
+//@   loop 2: invariant forall k in seen1 :: k != key1 && !old(k in dom(primary.Paths.Paths)) ==> forall o *spec.Operation :: isOpOf(m.Paths.Paths[k], o) && o.ID != "" ==> o.ID in dom(opIDs)
+//@   loop 2: invariant forall j in idx..len(piops) :: piops[j].ID == old(piops[j].ID)
+//@   loop 2: invariant forall j in 0..idx :: piops[j].ID != "" ==> piops[j].ID in dom(opIDs)
